@@ -98,6 +98,9 @@ pub fn main(args: &[String]) {
     let datadir_b = std::path::PathBuf::from(format!("{}_b", datadir.to_string_lossy()));
     let mut wals: [Option<Walrus>; 2] = [None, None];
     let mut fault_armed = false;
+    // `trace on`: the I/O events of every following operation (hook H1) go to <outfile>.trace
+    let mut tracing = false;
+    let mut trace_out = std::fs::OpenOptions::new().create(true).append(true).open(format!("{}.trace", args[2])).unwrap();
     let mut idx = start;
     let mut code = 0;
     while idx < lines.len() {
@@ -122,6 +125,14 @@ pub fn main(args: &[String]) {
             writeln!(out, "ok").unwrap();
             code = 77;
             break;
+        }
+        if t[0] == "trace" {
+            tracing = t[1] == "on";
+            walrus_rust::wal::verif_hooks::trace_enable(tracing);
+            let _ = walrus_rust::wal::verif_hooks::trace_take();
+            writeln!(out, "ok").unwrap();
+            out.flush().unwrap();
+            continue;
         }
         if t[0] == "crash" {
             // arm a process death inside the operation that follows (hook H1): `_exit(78)` immediately
@@ -148,12 +159,12 @@ pub fn main(args: &[String]) {
                     walrus_rust::wal::verif_hooks::set_clock_override(t[1].parse().unwrap());
                     "ok".into()
                 }
-                "open" => {
+                "open" | "opensync" => {
                     wals[wi] = None;
                     match Walrus::builder()
                         .data_dir(datadir.clone())
                         .consistency(mode)
-                        .fsync_schedule(FsyncSchedule::NoFsync)
+                        .fsync_schedule(if t[0] == "opensync" { FsyncSchedule::SyncEach } else { FsyncSchedule::NoFsync })
                         .build()
                     {
                         Ok(w) => {
@@ -290,6 +301,14 @@ pub fn main(args: &[String]) {
         }));
         if disarm_after {
             walrus_rust::wal::verif_hooks::disarm_fault();
+        }
+        if tracing {
+            writeln!(trace_out, "OP {} {}", idx - 1, line).unwrap();
+            for ev in walrus_rust::wal::verif_hooks::trace_take() {
+                writeln!(trace_out, "EV {}", ev).unwrap();
+            }
+            writeln!(trace_out, "RET {}", match &res { Ok(s) => s.as_str(), Err(_) => "panic" }).unwrap();
+            trace_out.flush().unwrap();
         }
         match res {
             Ok(s) => {
